@@ -159,3 +159,22 @@ func SocketFDs() int {
 	}
 	return n
 }
+
+// StableLimeGoroutineCount samples the census until it has not changed over four consecutive samples 5 ms apart (at
+// most ~1 s): a server that has just started may still be spawning its accept/serve goroutines.
+func StableLimeGoroutineCount(exclude ...string) int {
+	last, same := -1, 0
+	for i := 0; i < 200; i++ {
+		n := len(LimeGoroutines(exclude...))
+		if n == last {
+			same++
+			if same >= 3 {
+				return n
+			}
+		} else {
+			last, same = n, 0
+		}
+		time.Sleep(5 * time.Millisecond)
+	}
+	return last
+}
